@@ -319,7 +319,34 @@ func (t *tr) stmts(ind string, ss []ast.Stmt, tail string) string {
 	switch s := ss[0].(type) {
 	case *ast.ReturnStmt:
 		return t.ret(ind, s)
+	case *ast.IncDecStmt:
+		id, ok := s.X.(*ast.Ident)
+		if !ok {
+			t.fail("%s of %s", s.Tok, t.src(s.X))
+			return "()"
+		}
+		op := "GoSem.wadd"
+		if s.Tok == token.DEC {
+			op = "GoSem.wsub"
+		}
+		n := leanName(id.Name)
+		return "let " + n + " := (" + op + " " + n + " (1 : Int))\n" + ind + t.stmts(ind, ss[1:], tail)
 	case *ast.AssignStmt:
+		if len(s.Lhs) == 1 && len(s.Rhs) == 1 && (s.Tok == token.ADD_ASSIGN || s.Tok == token.SUB_ASSIGN) {
+			if id, ok := s.Lhs[0].(*ast.Ident); ok {
+				op := "GoSem.wadd"
+				if s.Tok == token.SUB_ASSIGN {
+					op = "GoSem.wsub"
+				}
+				v := t.expr(s.Rhs[0])
+				if len(t.binds) != 0 {
+					t.fail("a slice or index expression in an operator assignment")
+					return "()"
+				}
+				n := leanName(id.Name)
+				return "let " + n + " := (" + op + " " + n + " " + v + ")\n" + ind + t.stmts(ind, ss[1:], tail)
+			}
+		}
 		if len(s.Lhs) != 1 || len(s.Rhs) != 1 || (s.Tok != token.ASSIGN && s.Tok != token.DEFINE) {
 			t.fail("assignment %s", t.src(s))
 			return "()"
@@ -337,13 +364,46 @@ func (t *tr) stmts(ind string, ss []ast.Stmt, tail string) string {
 		t.binds = binds
 		return t.flush(ind, rest)
 	case *ast.IfStmt:
-		if s.Init != nil || s.Else != nil {
-			t.fail("if with init or else: %s", t.src(s.Cond))
+		if s.Init != nil {
+			t.fail("if with init: %s", t.src(s.Cond))
 			return "()"
 		}
 		c := t.cond(s.Cond)
 		if len(t.binds) != 0 {
 			t.fail("a slice or index expression inside a condition")
+			return "()"
+		}
+		if s.Else != nil {
+			eb, ok := s.Else.(*ast.BlockStmt)
+			if !ok {
+				t.fail("else if: %s", t.src(s.Cond))
+				return "()"
+			}
+			// both arms return: what follows is unreachable
+			if endsInReturn(s.Body) && endsInReturn(eb) {
+				a := t.stmts(ind+"  ", s.Body.List, "")
+				b := t.stmts(ind+"  ", eb.List, "")
+				return "if " + c + " then\n" + ind + "  " + a + "\n" + ind + "else\n" + ind + "  " + b
+			}
+			// both arms assign the same variable once
+			if len(s.Body.List) == 1 && len(eb.List) == 1 {
+				a1, ok1 := s.Body.List[0].(*ast.AssignStmt)
+				a2, ok2 := eb.List[0].(*ast.AssignStmt)
+				if ok1 && ok2 && a1.Tok == token.ASSIGN && a2.Tok == token.ASSIGN && len(a1.Lhs) == 1 && len(a2.Lhs) == 1 && len(a1.Rhs) == 1 && len(a2.Rhs) == 1 {
+					i1, k1 := a1.Lhs[0].(*ast.Ident)
+					i2, k2 := a2.Lhs[0].(*ast.Ident)
+					if k1 && k2 && i1.Name == i2.Name {
+						v1, v2 := t.expr(a1.Rhs[0]), t.expr(a2.Rhs[0])
+						if len(t.binds) != 0 {
+							t.fail("a slice or index expression inside an if/else assignment")
+							return "()"
+						}
+						n := leanName(i1.Name)
+						return "let " + n + " := if " + c + " then " + v1 + " else " + v2 + "\n" + ind + t.stmts(ind, ss[1:], tail)
+					}
+				}
+			}
+			t.fail("if/else of a form outside the fragment: %s", t.src(s.Cond))
 			return "()"
 		}
 		if endsInReturn(s.Body) {
